@@ -2271,6 +2271,9 @@ def run(ctx):
     sh += [("oid",), ("strings",), ("tags",), ("nested",)]
     if not q:
         sh = [("strings2",)] + sh + [("oid2", a0) for a0 in (0, 1, 2)] + [("tags2", t) for t in range(31)]
+    else:
+        # IMPLICIT/EXPLICIT tagging of EVERY class (constructed ones too) against reference encodings: tags 0, 5, 30
+        sh += [("tags2", t) for t in (0, 5, 30)]
     ctx.pmap(der_rt_worker, [[s] for s in sh])
     # padding
     bss = list(range(1, 33)) + [255] + ([] if q else list(range(33, 65)) + [127, 128, 254])
